@@ -87,6 +87,7 @@ type State struct {
 	dirty    map[string]dirtyObj
 	errs     []errRec
 	ghosts   map[string]Term
+	ghostBound map[string]bool
 	facts    map[string]bool
 	defs     map[string]string
 	local    map[string]bool     // fresh objects of this activation that have not escaped yet
